@@ -29,7 +29,7 @@ pub static DEF: PropDef = PropDef {
         "injectivity is over the enumerated population only (no cryptographic claim)",
     ],
     shards: (32, 128),
-    budget_ms: (5_000, 20_000),
+    budget_ms: (60_000, 180_000),
 };
 
 /// reference CMR of every node of the DAG
@@ -70,6 +70,7 @@ fn alphabet(fam: Fam) -> Vec<Sym> {
 }
 
 fn run(ctx: &Ctx, out: &mut Out) {
+    leg_policies(ctx, out);
     leg_scratch_and_hide(ctx, out);
     leg_convert(ctx, out);
     leg_inject(ctx, out);
@@ -563,4 +564,129 @@ fn leg_words(ctx: &Ctx, out: &mut Out) {
         }
     }
     let _ = (Rc::new(0), RT::unit());
+}
+
+/// the commitment root of a real node DAG, re-hashed from scratch (tag, children, word bits, fail
+/// entropy, hidden roots; jet roots are atoms)
+fn scratch_cmr<N>(root: &simplicity::node::Node<N>, m: &mut Merkle) -> H
+where
+    N: simplicity::node::Marker,
+    for<'a> &'a simplicity::node::Node<N>: simplicity::dag::DagLike,
+{
+    use simplicity::dag::{DagLike, InternalSharing};
+    use simplicity::node::Inner;
+    let mut v: Vec<H> = vec![];
+    for item in root.post_order_iter::<InternalSharing>() {
+        let l = item.left_index.map(|i| v[i]);
+        let r = item.right_index.map(|i| v[i]);
+        let h = match item.node.inner() {
+            Inner::Iden => m.cmr_leaf("iden"),
+            Inner::Unit => m.cmr_leaf("unit"),
+            Inner::Witness(_) => m.cmr_leaf("witness"),
+            Inner::Fail(e) => {
+                let mut a = [0u8; 64];
+                a.copy_from_slice(e.as_ref());
+                m.cmr_fail(&a)
+            }
+            Inner::Word(w) => {
+                let bits: Vec<bool> = w.as_value().iter_padded().collect();
+                m.cmr_word(w.n() as usize, &bits)
+            }
+            Inner::Jet(j) => j.cmr().to_byte_array(),
+            Inner::InjL(_) => m.cmr_unary("injl", &l.unwrap()),
+            Inner::InjR(_) => m.cmr_unary("injr", &l.unwrap()),
+            Inner::Take(_) => m.cmr_unary("take", &l.unwrap()),
+            Inner::Drop(_) => m.cmr_unary("drop", &l.unwrap()),
+            Inner::AssertL(_, h) => m.cmr_binary("case", &l.unwrap(), &h.to_byte_array()),
+            Inner::AssertR(h, _) => m.cmr_binary("case", &h.to_byte_array(), &l.unwrap()),
+            Inner::Disconnect(..) => m.cmr_unary("disconnect", &l.unwrap()),
+            Inner::Comp(..) => m.cmr_binary("comp", &l.unwrap(), &r.unwrap()),
+            Inner::Case(..) => m.cmr_binary("case", &l.unwrap(), &r.unwrap()),
+            Inner::Pair(..) => m.cmr_binary("pair", &l.unwrap(), &r.unwrap()),
+        };
+        v.push(h);
+    }
+    *v.last().unwrap()
+}
+
+/// Policy compilation as a conversion path: Policy::cmr, the committed program, and every satisfied
+/// (hidden and pruned) program must all carry the root obtained by re-hashing the committed program's
+/// combinator tree from scratch.
+fn leg_policies(ctx: &Ctx, out: &mut Out) {
+    use crate::props::c16::{keys, lock_envs, policies, Sat, P};
+    use simplicity::elements::secp256k1_zkp::{Message, Secp256k1};
+    use simplicity::elements::{SchnorrSig, SchnorrSighashType};
+    let leg = "policies";
+    let ks = keys();
+    let mut m = Merkle::default();
+    let mut memo: Vec<Vec<P>> = vec![vec![]];
+    let specs = lock_envs();
+    let built = crate::space::envs::build(&specs[0].1);
+    let secp = Secp256k1::new();
+    let msg = Message::from_digest(built.env.c_tx_env().sighash_all().to_byte_array());
+    let sigs = [0, 1].map(|i| SchnorrSig { sig: secp.sign_schnorr_no_aux_rand(&msg, &ks.k[i]), hash_ty: SchnorrSighashType::All });
+    for s in 1..=ctx.tier.pick(3, 4) {
+        for chunk in policies(s, &mut memo, &ks).chunks(16) {
+            if !ctx.mine() {
+                continue;
+            }
+            for p in chunk {
+                let label = || format!("{p}");
+                if !ctx.begin(leg, &label) {
+                    continue;
+                }
+                out.evaluations += 1;
+                out.states += 1;
+                if s > 1 {
+                    out.nontrivial += 1;
+                }
+                let r = guard(|| -> Result<&'static str, (String, String)> {
+                    let commit = p.commit();
+                    out.transitions += 3;
+                    let want = scratch_cmr(commit.as_ref(), &mut m);
+                    if commit.cmr().to_byte_array() != want {
+                        return Err(("policy:commit-cmr".into(), format!("committed program has CMR {}, re-hashed from scratch {}", commit.cmr(), crate::reference::bits::hex(&want))));
+                    }
+                    if p.cmr().to_byte_array() != want {
+                        return Err(("policy:cmr".into(), format!("Policy::cmr = {}, the compiled program re-hashed from scratch {}", p.cmr(), crate::reference::bits::hex(&want))));
+                    }
+                    // every subset of the satisfier's data: whatever program comes back carries the same root
+                    let mut n = 0;
+                    for avail in 0u8..8 {
+                        let sat = types::Context::with_context(|tctx| {
+                            let mut sat = Sat { ctx: tctx, sigs: HashMap::new(), pre: HashMap::new(), env: &built.env };
+                            if avail & 1 != 0 {
+                                sat.sigs.insert(ks.pk[0], sigs[0]);
+                            }
+                            if avail & 2 != 0 {
+                                sat.sigs.insert(ks.pk[1], sigs[1]);
+                            }
+                            if avail & 4 != 0 {
+                                sat.pre.insert(ks.image, ks.pre);
+                            }
+                            p.satisfy(&sat, &built.env)
+                        });
+                        out.transitions += 1;
+                        if let Ok(prog) = sat {
+                            n += 1;
+                            let again = scratch_cmr(prog.as_ref(), &mut m);
+                            if prog.cmr().to_byte_array() != want || again != want {
+                                return Err(("policy:satisfied-cmr".into(), format!("satisfied program (data subset {avail:03b}) has CMR {}, re-hashed {}, the policy {}", prog.cmr(), crate::reference::bits::hex(&again), crate::reference::bits::hex(&want))));
+                            }
+                        }
+                    }
+                    Ok(if n > 0 { "policy:roots-agree(satisfied)" } else { "policy:roots-agree(never satisfied)" })
+                });
+                match r {
+                    Ok(Ok(o)) => {
+                        out.outcome(o);
+                        out.sample(leg, || (label(), o.to_string()));
+                    }
+                    Ok(Err((c, d))) => out.violation(&c, leg, label(), d),
+                    Err(e) => out.violation(&panic_class(&e), leg, label(), e),
+                }
+                ctx.end();
+            }
+        }
+    }
 }
